@@ -1,3 +1,5 @@
+import GqlgenVerif.Props.C18Start
+import GqlgenVerif.Props.C18Names
 import Driver.Util
 import GqlgenVerif.Model.Order
 import GqlgenVerif.Model.Naming
@@ -135,8 +137,28 @@ def idxOp (defs lookups : String) : String :=
   ",".intercalate ((names lookups).map fun t =>
     t ++ "=" ++ (match IndexDefs.findObject idx t with | some o => toString o | none => "-"))
 
+/-- `reg k1=n1;k2=n2;...`: requests to the name registry in this order (key = GraphQL name, n = templates.ToGo of it);
+answers of the requests, in order (Model/NameRegistry.lean) -/
+def regOp (pairs : String) : String :=
+  let reqs : List (String × String) := (pairs.splitOn ";").filterMap fun x =>
+    match x.splitOn "=" with | [k, n] => some (k, n) | _ => none
+  let norm : String → String := fun k => ((reqs.find? (·.1 == k)).map (·.2)).getD k
+  let (_, outs) := reqs.foldl (fun (acc : NameRegistry.Reg × List String) kn =>
+    let (r, g) := NameRegistry.request norm acc.1 kn.1
+    (r, acc.2 ++ [g])) ([], [])
+  ";".intercalate outs
+
+/-- `wd <start> <cfgDir>`: what every regenerated read of the working directory sees (Model/StartDir.lean over
+Gen/WorkDirReads.lean): `file:line:phase=dir` -/
+def wdOp (start cfgDir : String) : String :=
+  ";".intercalate (Gen.WorkDirReads.reads.map fun r =>
+    r.file ++ ":" ++ toString r.line ++ ":" ++
+      (match r.phase with | .init => "init" | .search => "search" | .generate => "generate") ++ "=" ++ ((StartDir.seen Gen.WorkDirReads.steps r ⟨start, cfgDir⟩).getD "?"))
+
 def step (line : String) : String :=
   match line.splitOn " " with
+  | ["reg", pairs] => regOp pairs
+  | ["wd", start, cfgDir] => wdOp start cfgDir
   | ["roots", ns] => rootsOp ns
   | ["idx", defs, lookups] => idxOp defs lookups
   | ["pins", data, dirs, files] => pinsOp data dirs files
